@@ -60,3 +60,15 @@ Proof.
   rewrite (fold_perm c1 r1 ts ts' Hp Hnd empty_header j).
   apply fold_otv. intros k; reflexivity.
 Qed.
+
+(* the bytes OriginalHash hashes do not depend on what the reused scratch buffer held *)
+Lemma hash_bytes_scratch s1 s2 m otv : original_hash_bytes s1 m otv = original_hash_bytes s2 m otv.
+Proof. reflexivity. Qed.
+
+Theorem hashed_bytes_independent s1 s2 m c1 r1 c2 r2 ts ts' :
+  Permutation ts ts' -> NoDup (map t_index ts) ->
+  original_hash_bytes s1 m (h_otv (map_all_tags c1 r1 ts)) = original_hash_bytes s2 m (h_otv (map_all_tags c2 r2 ts')).
+Proof.
+  intros Hp Hnd. unfold original_hash_bytes, original_marshal_append. cbn [firstn app].
+  apply original_bytes_independent; assumption.
+Qed.
